@@ -38,6 +38,7 @@ def _run(case, prog, factor, strict, clock):
     interp = kdsl.Interp(prog, env, clock=clock)
     classes = set()
     st_ = {"slept": 0, "late": 0, "near": 0, "raised": 0}
+    retried_at = None
     cur = {}
 
     def on_probe(occ):
@@ -113,6 +114,12 @@ def _run(case, prog, factor, strict, clock):
                                                                 f"from {now0} to {env.now} (next occurrence due {pk}, peek() now "
                                                                 f"{env.peek()})", "C20.strict_processed/clock-moved")
                     st_["raised"] += 1
+                    if case.get("retry") and retried_at != h.step_no - 1:
+                        # the caller simply tries again without sync(): nothing has been re-based, the wall clock has not gone
+                        # back, so the same occurrence must be refused again
+                        retried_at = h.step_no
+                        st_["retried"] = st_.get("retried", 0) + 1
+                        continue
                     # resynchronise and go on (exercises sync re-basing)
                     env.sync()
                     real_start = clock.t
@@ -149,6 +156,8 @@ def _run(case, prog, factor, strict, clock):
         classes.add("strict lag within 25% of factor")
     if st_["raised"]:
         classes.add("strict raise")
+    if st_.get("retried"):
+        classes.add("refused step retried without sync()")
     if any(f < 1 for d, f in clock.sleeps if d > 0):
         classes.add("early-returning sleep")
     if any(f == 0 for d, f in clock.sleeps):
@@ -168,6 +177,7 @@ def strategy(tier):
         "prog": progs,
         "factor": st.sampled_from(FACTORS),
         "strict": st.booleans(),
+        "retry": st.booleans(),
         "script": st.lists(st.sampled_from([1, 1, 1, 0.5, 0.25, 2, 1.5, 0]), min_size=1, max_size=5),
         "t0": st.sampled_from([0, 1000, 12345.5]),
         "pre_gap": st.sampled_from([0, 0, 0.0625, 0.5, 1, 4]),
@@ -186,7 +196,7 @@ PROP = Property(
           "step() is entered (both directions), without processing the occurrence; (d) non-strict never raises it. "
           "Non-trivial = some step slept, some step was >= factor/2 late, and (strict) some lag within 25% of factor."),
     facets=[Facet("programs", strategy, run_case, quick=2500, thorough=15000,
-                  essential=["step had to sleep", "step late by >= factor/2", "strict lag within 25% of factor", "strict raise",
+                  essential=["step had to sleep", "step late by >= factor/2", "strict lag within 25% of factor", "strict raise", "refused step retried without sync()",
                              "early-returning sleep", "sleep without progress", "sync"])],
     assumptions=["wall clock is virtual: onl.sim.rt.monotonic/sleep replaced harness-side", "dyadic factors/delays/burns"],
 )
